@@ -121,6 +121,10 @@ pub enum How {
     AskT(Ms),
     /// ask_join (message must be of type Job)
     AskJoin,
+    /// plain tell / ask wrapped in a *caller-side* `tokio::time::timeout`: the future is dropped
+    /// (the call abandoned) if it has not returned after the given time
+    TellC(Ms),
+    AskC(Ms),
     // real-thread engine only:
     BTell(Option<Ms>),
     BAsk(Option<Ms>),
@@ -131,7 +135,7 @@ pub enum How {
 
 impl How {
     pub fn is_tell(&self) -> bool {
-        matches!(self, How::Tell | How::TellT(_) | How::BTell(_) | How::DepTell(_))
+        matches!(self, How::Tell | How::TellT(_) | How::TellC(_) | How::BTell(_) | How::DepTell(_))
     }
     pub fn is_ask(&self) -> bool {
         !self.is_tell()
@@ -140,6 +144,13 @@ impl How {
         match self {
             How::TellT(t) | How::AskT(t) => Some(*t),
             How::BTell(t) | How::BAsk(t) => *t,
+            _ => None,
+        }
+    }
+    /// caller-side cancellation deadline (not a library timeout)
+    pub fn cancel_after(&self) -> Option<Ms> {
+        match self {
+            How::TellC(t) | How::AskC(t) => Some(*t),
             _ => None,
         }
     }
@@ -299,7 +310,7 @@ impl Scenario {
                 .map(|s| match s {
                     Step::Sleep(ms) => *ms as u64,
                     Step::Send { how, msg, .. } => {
-                        how.timeout().map(|t| (t as u64).min(200)).unwrap_or(0) + msg_cost(msg)
+                        how.timeout().or(how.cancel_after()).map(|t| (t as u64).min(200)).unwrap_or(0) + msg_cost(msg)
                     }
                     _ => 0,
                 })
@@ -319,7 +330,7 @@ impl Scenario {
             for o in &c.ops {
                 total += o.delay as u64;
                 if let Op::Send { how, msg, .. } = &o.op {
-                    total += how.timeout().map(|t| (t as u64).min(200)).unwrap_or(0);
+                    total += how.timeout().or(how.cancel_after()).map(|t| (t as u64).min(200)).unwrap_or(0);
                     total += msg_cost(msg);
                 }
             }
